@@ -307,7 +307,15 @@ class Summariser:
             e = e.args[0]
         # a test that only reads locals (each bound once to ONE evaluation, whatever its text) has one outcome per binding on a path
         key = None
-        if not raw and not any(isinstance(n, (ast.Call, ast.Attribute, ast.Subscript, ast.NamedExpr, ast.Lambda)) for n in ast.walk(e)):
+        # (isinstance(x, K) of a local x: the class of the ONE object x was bound to does not change either)
+        inst = isinstance(e, ast.Call) and isinstance(e.func, ast.Name) and e.func.id == "isinstance" and len(e.args) == 2 and not e.keywords \
+            and isinstance(e.args[0], ast.Name) and not any(isinstance(n, (ast.Call, ast.Subscript, ast.NamedExpr, ast.Lambda)) for n in ast.walk(e.args[1]))
+        if not raw and inst and e.args[0].id in p.env:
+            key = (u(e), (id(p.env[e.args[0].id]),))
+            if key in p.decided:
+                (cont_true if p.decided[key] else cont_false)(p)
+                return
+        elif not raw and not any(isinstance(n, (ast.Call, ast.Attribute, ast.Subscript, ast.NamedExpr, ast.Lambda)) for n in ast.walk(e)):
             names = sorted({n.id for n in ast.walk(e) if isinstance(n, ast.Name)})
             if names and all(n in p.env for n in names):
                 key = (u(e), tuple(id(p.env[n]) for n in names))
